@@ -4,9 +4,11 @@ from __future__ import annotations
 import ast
 import io
 import pathlib
+import random
 import re
 import shutil
 import sys
+import zlib
 from typing import Any, Dict, List, Optional, Set, Tuple
 
 from hypothesis import strategies as st
@@ -27,17 +29,17 @@ RULE = (
     "leading blank / whitespace-only / comment lines, non-ASCII characters (BMP and astral) earlier on the same line "
     "inside a string, tab indentation of the planted block or of the whole model. Observed through main.execute "
     "(jsonschema, csharp for late errors) and smoke.execute. Oracles: absolute - every 'At line L and column C' has "
-    "1<=L<=#lines, 1<=C<=len(line)+1, is the start of an ast node / decorator '@' / '(' of the text (Python's own ast, "
+    "1<=L<=#lines, 1<=C<=len(line)+1, is the start of an ast node / decorator '@' / '(' (or the first character of such a line) of the text (Python's own ast, "
     "col_offset converted from UTF-8 bytes to characters) and, for the lines of the operator's own error, lies in the "
     "candidate set {start of the planted node, of any enclosing node (decorated definition: '@' or keyword), first "
     "character / first non-blank of those lines, (1,1)}; metamorphic - prepending one comment line maps every (L, C) "
-    "to (L+1, C) (module-level (1,1) may stay). Non-trivial = at least one located error of the operator itself; "
+    "to (L+1, C) (module-level errors may stay at (1,1)). Non-trivial = at least one located error of the operator itself; "
     "distinct by final text."
 )
 ASSUMPTIONS = [
     "'offending construct or its enclosing statement' = any node on the ancestor chain of the planted node (enclosing expressions included, e.g. the call around a bad argument)",
     "asttokens starts a parenthesised/generator expression at its '(' and a decorated definition at its first '@': '(' and '@' tokens count as node starts",
-    "errors attached to the module are expected at (1, 1), also when the file starts with blank lines",
+    "errors attached to the module are expected at (1, 1), also when the file starts with blank lines; the start of the first statement is accepted too (asttokens starts the module there when the file starts with a whitespace-only line)",
     "lines are separated by '\\n' only (the generator emits no '\\r' or form feed)",
     "a wrong location in a text that starts with a space/tab is classified under the 'displaced' LinenoColumner bucket (position table built from the module text instead of the source)",
     "a column that is exactly one too large on a line > 1 is classified under the known LinenoColumner bucket and the corrected position is judged further",
@@ -106,12 +108,16 @@ def tabify(text: str) -> str:
 def cases(draw: Any) -> Dict[str, Any]:
     spec = draw(mmgen.specs(mmgen.Opts(max_classes=draw(st.integers(1, 4)), max_props=draw(st.integers(1, 3)),
                                        docs=draw(st.sampled_from(["none", "plain"])))))
-    how = draw(st.sampled_from(["snip", "snip", "op", "op"]))
-    case = {"via": draw(st.sampled_from(["execute", "execute", "execute", "smoke"]))}  # type: Dict[str, Any]
-    lead = draw(st.lists(st.sampled_from(COMMENT_LINES), min_size=0, max_size=5))
+    spec_text = mmgen.render(spec)
+    # choices among many alternatives go through a PRNG seeded by Hypothesis draws (an integer, which favours small
+    # values, mixed with a checksum of the drawn model)
+    rng = random.Random(draw(st.integers(0, 2 ** 32 - 1)) ^ zlib.crc32(spec_text.encode("utf-8")))
+    how = rng.choice(["snip", "op"])
+    case = {"via": rng.choice(["execute", "execute", "execute", "smoke"])}  # type: Dict[str, Any]
+    lead = [rng.choice(COMMENT_LINES) for _ in range(rng.randint(0, 5))]
     if how == "op":
         text = mmgen.render(spec)
-        if draw(st.integers(0, 4)) == 0:
+        if rng.randint(0, 4) == 0:
             text = tabify(text)
         try:
             src = g.Src(text)
@@ -123,23 +129,23 @@ def cases(draw: Any) -> Dict[str, Any]:
             if not applicable:
                 how = "snip"
             else:
-                op, sites = applicable[draw(st.integers(0, len(applicable) - 1))]
-                site = sites[draw(st.integers(0, len(sites) - 1))]
+                op, sites = rng.choice(applicable)
+                site = rng.choice(sites)
                 case.update({"how": "op", "op": op.name, "site": site, "base": text, "lead": lead})
                 return case
     # stand-alone statement
-    snip = SNIPS[draw(st.integers(0, len(SNIPS) - 1))]
-    where = draw(st.sampled_from(["top", "middle", "middle", "end"]))
-    indent = draw(st.sampled_from(["    ", "    ", "\t", "  "]))
-    prefix = draw(st.sampled_from(PREFIXES)) if snip.simple else ""
+    snip = rng.choice(SNIPS)
+    where = rng.choice(["top", "top", "middle", "middle", "end"])
+    indent = rng.choice(["    ", "    ", "\t", "  "])
+    prefix = rng.choice(PREFIXES) if snip.simple else ""
     if where == "top":
         spec.module_doc = None
         lead = []
     text = mmgen.render(spec)
-    if draw(st.integers(0, 5)) == 0:
+    if rng.randint(0, 5) == 0:
         text = tabify(text)
     case.update({"how": "snip", "snip": snip.name, "where": where, "indent": indent, "prefix": prefix, "base": text,
-                 "lead": lead, "pos": draw(st.integers(0, 30))})
+                 "lead": lead, "pos": rng.randint(0, 30)})
     return case
 
 
@@ -306,8 +312,8 @@ def evaluate(case: Dict[str, Any], base: pathlib.Path) -> Dict[str, Any]:
     for (ln, col, msg, _), (ln2, col2, _, _) in zip(locs, locs2):
         if (ln2, col2) == (ln + 1, col):
             continue
-        if (ln, col) == (1, 1) and (ln2, col2) == (1, 1):
-            continue  # module-level
+        if (ln2, col2) == (1, 1) and (ln, col) in ((1, 1), src.first_statement_start()):
+            continue  # module-level: asttokens starts the module at (1, 1) or at its first statement
         d = f"'{msg[:120]}': ({ln}, {col}) became ({ln2}, {col2}) after prepending one comment line; expected ({ln + 1}, {col})"
         if text[:1] in (" ", "\t"):
             res["fails"].append((DISPLACED, d + f"; the text starts with {text[:text.find(chr(10)) + 1]!r}"))
